@@ -176,9 +176,15 @@ pub fn file_line(kind: usize, k: usize, renderer: &str, size: usize) -> String {
     let _ = std::fs::remove_dir_all(&dir);
     std::fs::create_dir_all(&dir).unwrap();
     let ext = if renderer == "svgu" { "svg" } else { renderer };
-    let mut path = format!("{}/out.{}", dir, ext);
+    // every other size: the destination is spelled with multi-byte characters (a user's documents folder), long enough
+    // for any "shorten the path for the message" logic to cut it somewhere
+    let leaf = if (size + kind) % 2 == 1 { "Документы-文件-données-été/выход-输出-résumé-naïve-façade" } else { "out" };
+    if leaf != "out" {
+        std::fs::create_dir_all(format!("{}/Документы-文件-données-été", dir)).unwrap();
+    }
+    let mut path = format!("{}/{}.{}", dir, leaf, ext);
     match kind {
-        1 => path = format!("{}/missing/out.{}", dir, ext),
+        1 => path = format!("{}/missing/{}.{}", dir, leaf, ext),
         2 => {
             std::fs::create_dir_all(&path).unwrap();
         }
